@@ -428,7 +428,11 @@ impl Model {
                 return diverge(clause, format!("expected exactly one {:?}, responses: {:?}", w, obs.tags.iter().map(|t| format!("{:?}", t).chars().take(120).collect::<String>()).collect::<Vec<_>>()));
             }
         }
-        // kinds that may appear only when required
+        // kinds that may appear only when required (an answer to a command the statement does
+        // not mention - unknown commands, other data - is the library's business)
+        if matches!(op, Op::UnknownCommand | Op::OtherData { .. }) {
+            return Verdict::Agree;
+        }
         for t in obs.tags.iter() {
             let exclusive = match t {
                 Tag::Result { .. } | Tag::PingResponse { .. } | Tag::PingRequest | Tag::Media { .. } => true,
